@@ -48,6 +48,7 @@ fn main() {
         "C01" => dgh::c01::run(&tier, seed),
         "C03" => dgh::c03::run(&tier, seed),
         "C04" => dgh::c04::run(&tier, seed),
+        "C17" => dgh::c17::run(&tier, seed),
         "C02" => dgh::walkprops::run_c02(&tier, seed),
         _ => {
           eprintln!("unknown property {}", prop);
